@@ -14,7 +14,7 @@ const staticPrelude = `(set-logic ALL)
 (declare-sort Iface 0)
 (declare-datatypes ((Slice 0)) (((mk_slice (s_arr Int) (s_off Int) (s_len Int) (s_cap Int)))))
 (define-fun nil_slice () Slice (mk_slice 0 0 0 0))
-(define-fun slice_wf ((s Slice)) Bool (and (>= (s_arr s) 0) (>= (s_off s) 0) (<= 0 (s_len s)) (<= (s_len s) (s_cap s)) (<= (+ (s_off s) (s_cap s)) 2305843009213693951) (=> (= (s_arr s) 0) (and (= (s_cap s) 0) (= (s_off s) 0)))))
+(define-fun slice_wf ((s Slice) (maxn Int)) Bool (and (>= (s_arr s) 0) (>= (s_off s) 0) (<= 0 (s_len s)) (<= (s_len s) (s_cap s)) (<= (+ (s_off s) (s_cap s)) maxn) (=> (= (s_arr s) 0) (and (= (s_cap s) 0) (= (s_off s) 0)))))
 (declare-const nil_iface Iface)
 (declare-fun tag (Iface) Int)
 (assert (= (tag nil_iface) 0))
@@ -185,7 +185,7 @@ func (e *Enc) EncodeTop() {
 			break // one split per function is supported
 		}
 	}
-	if !c.ModAll {
+	if !c.ModAll || c.PureIf != nil {
 		e.frameObligations(c, env, rets)
 	}
 }
@@ -204,7 +204,22 @@ func (e *Enc) frameObligations(c *Contract, env *CEnv, rets []*Exit) {
 		return allowed[k]
 	}
 	entryEnv := env.sub(e.entryState)
-	for _, m := range c.Modifies {
+	pureCond := tTrue
+	mods := c.Modifies
+	if c.PureIf != nil {
+		pc, err := entryEnv.evalBool(c.PureIf)
+		if err != nil {
+			e.problem("pureif: %v", err)
+			return
+		}
+		pureCond = e.def("pureif", pc)
+		if c.ModAll {
+			mods = nil
+		}
+	} else if c.ModAll {
+		return
+	}
+	for _, m := range mods {
 		switch n := m.(type) {
 		case *CIndex:
 			if id, ok := n.X.(*CIdent); ok && e.w.CS.Ghosts[id.Name] != nil {
@@ -277,7 +292,7 @@ func (e *Enc) frameObligations(c *Contract, env *CEnv, rets []*Exit) {
 			if c.Pure {
 				var goals []Term
 				for _, ex := range rets {
-					goals = append(goals, implies(ex.cond, eq(e.heapGet(ex.st, k), alloc0)))
+					goals = append(goals, implies(and(ex.cond, pureCond), eq(e.heapGet(ex.st, k), alloc0)))
 				}
 				if g := and(goals...); g.S != "true" {
 					e.oblige(fmt.Sprintf("%s:frame:pure-noalloc", e.topName()), "frame", tTrue, g, "")
@@ -308,7 +323,7 @@ func (e *Enc) frameObligations(c *Contract, env *CEnv, rets []*Exit) {
 				}
 				g = T(SBool, "(forall ((fr_r Int)) (=> %s (= (select %s fr_r) (select %s fr_r))))", and(conds...).S, hn.S, h0.S)
 			}
-			goals = append(goals, implies(ex.cond, g))
+			goals = append(goals, implies(and(ex.cond, pureCond), g))
 		}
 		if g := and(goals...); g.S != "true" {
 			e.oblige(fmt.Sprintf("%s:frame:%s", e.topName(), k), "frame", tTrue, g, "")
@@ -385,7 +400,49 @@ func (e *Enc) header() string {
 			}
 		}
 	}
-	sb.WriteString(e.w.SpecText)
+	// spec definitions always; spec axioms only when their trigger symbols are used by this function's encoding
+	body := strings.Join(e.lines, "\n")
+	for _, o := range e.obls {
+		body += o.Goal
+	}
+	used := map[string]bool{}
+	for _, tok := range sexpTokens(body) {
+		used[tok] = true
+	}
+	// transitive use through definitions
+	changed := true
+	for changed {
+		changed = false
+		for _, it := range e.w.SpecItems {
+			if it.IsAssert {
+				continue
+			}
+			toks := sexpTokens(it.Text)
+			if len(toks) < 3 || !used[toks[2]] {
+				continue
+			}
+			for _, t := range toks[3:] {
+				if _, isSpec := e.w.SpecSigs[t]; isSpec && !used[t] {
+					used[t] = true
+					changed = true
+				}
+			}
+		}
+	}
+	for _, it := range e.w.SpecItems {
+		if it.IsAssert {
+			ok := len(it.Needs) > 0
+			for _, n := range it.Needs {
+				if !used[n] {
+					ok = false
+				}
+			}
+			if !ok {
+				continue
+			}
+		}
+		sb.WriteString(it.Text + "\n")
+	}
 	return sb.String()
 }
 
@@ -402,8 +459,22 @@ func (e *Enc) script(o *Obligation, withModel bool) string {
 	if withModel {
 		sb.WriteString("(set-option :produce-models true)\n")
 	}
-	sb.WriteString(e.header())
+	hdr := e.header()
+	if o.Cover {
+		var kept []string
+		for _, l := range strings.Split(hdr, "\n") {
+			if strings.HasPrefix(l, "(assert (forall") {
+				continue
+			}
+			kept = append(kept, l)
+		}
+		hdr = strings.Join(kept, "\n")
+	}
+	sb.WriteString(hdr)
 	for _, l := range e.lines[:o.Prefix] {
+		if o.Cover && strings.HasPrefix(l, "(assert") && strings.Contains(l, "(forall ") {
+			continue // reachability guards are decided without the quantified frame facts (weaker assumptions)
+		}
 		sb.WriteString(l + "\n")
 	}
 	if o.caseSel >= 0 && o.caseSel < len(o.Cases) {
@@ -443,3 +514,16 @@ func (e *Enc) incrementalScript() string {
 }
 
 func funcKeyOf(fn *ssa.Function) string { return fn.String() }
+
+// encodeFunction encodes fn twice: the first pass only discovers which heap components the function touches, so
+// that state merges in the second pass materialise every component (no precision is lost at joins after havocs).
+func encodeFunction(w *World, fn *ssa.Function, c *Contract) *Enc {
+	e1 := NewEnc(w, fn, c)
+	e1.EncodeTop()
+	e2 := NewEnc(w, fn, c)
+	for k, v := range e1.heapSort {
+		e2.heapSort[k] = v
+	}
+	e2.EncodeTop()
+	return e2
+}
